@@ -28,6 +28,20 @@ func defaultAvoid() avoid {
 
 const ruleSeq = "non-trivial = at least one committed transaction and a non-empty final state; distinct = distinct final model state hash"
 
+// withStreamFault adds, in a fifth of the runs, the fault "the writer of the change stream
+// returns an error from some commit on (or once)": the transaction is applied in full and
+// emitted exactly once all the same (own PRNG stream).
+func withStreamFault(cs *Case, seed uint64, run int) *Case {
+	if fr := NewRng(seed, uint64(run), 101); fr.Chance(0.2) {
+		if cs.Cfg.Params == nil {
+			cs.Cfg.Params = map[string]int{}
+		}
+		cs.Cfg.Params["stream_fail_at"] = fr.Range(1, 8)
+		cs.Cfg.Params["stream_fail_once"] = b2i(fr.Chance(0.4))
+	}
+	return cs
+}
+
 func init() {
 	seqStub := []string{"none needed (single client; disk = in-memory SimFile/SimReader where a restart is generated)"}
 	register(&PropDef{
@@ -75,18 +89,7 @@ func init() {
 			p := seqProfile{minSteps: 4, maxSteps: 24, wTxn: 20, wCreateIndex: 1,
 				wInsert: 8, wAt: 8, wRange: 2, wDelete: 4, wDeleteAll: 1, wKey: 10,
 				pAbort: 0.35, pFailInsert: 0.2, pMerge: 0.3, maxCols: 6, multiBlock: 0.4, pKeyCol: 0.3, indexes: true}
-			streamFault := func(cs *Case) *Case {
-				// fault: the writer of the change stream returns an error from some commit on (or
-				// once): the transaction is applied in full all the same (own PRNG stream)
-				if fr := NewRng(seed, uint64(run), 101); fr.Chance(0.2) {
-					if cs.Cfg.Params == nil {
-						cs.Cfg.Params = map[string]int{}
-					}
-					cs.Cfg.Params["stream_fail_at"] = fr.Range(1, 8)
-					cs.Cfg.Params["stream_fail_once"] = b2i(fr.Chance(0.4))
-				}
-				return cs
-			}
+			streamFault := func(cs *Case) *Case { return withStreamFault(cs, seed, run) }
 			if run%2 == 1 {
 				return streamFault(genConc("C02", seed, run, concProfile{minWriters: 1, maxWriters: 3, minReaders: 1, maxReaders: 2, maxTxns: 3, maxOps: 4,
 					wUpdate: 6, wMerge: 3, wInsert: 4, wDeleteOwn: 3, wRangeRead: 3, wRangeWrite: 1, wPointRead: 4, wKey: 8,
@@ -212,9 +215,9 @@ func init() {
 			if run%16 == 13 {
 				return genStalled("C15", seed, run) // fault: the consumer of the change stream stalls
 			}
-			return genConc("C15", seed, run, concProfile{minWriters: 2, maxWriters: 4, minReaders: 0, maxReaders: 1, maxTxns: 3, maxOps: 4, snapshots: run % 2,
+			return withStreamFault(genConc("C15", seed, run, concProfile{minWriters: 2, maxWriters: 4, minReaders: 0, maxReaders: 1, maxTxns: 3, maxOps: 4, snapshots: run % 2,
 				wUpdate: 8, wMerge: 4, wInsert: 4, wDeleteOwn: 3, wRangeRead: 2, wRangeWrite: 1, wPointRead: 2, wKey: 6,
-				pAbort: 0.2, pFailInsert: 0.15, multiBlock: 0.5, maxCols: 5, pKeyCol: 0.15, stableRows: [2]int{1, 5}, ghost: 0.25}, knownAvoid("C15", seed, run))
+				pAbort: 0.2, pFailInsert: 0.15, multiBlock: 0.5, maxCols: 5, pKeyCol: 0.15, stableRows: [2]int{1, 5}, ghost: 0.25}, knownAvoid("C15", seed, run)), seed, run)
 		},
 		Exec: func(cs *Case) *World {
 			if cs.World == "stalled" {
@@ -348,6 +351,11 @@ func init() {
 					cs.Faults = append(cs.Faults, Fault{Kind: "snap-write-call", At: fr.Range(1, 8)})
 				} else {
 					cs.Faults = append(cs.Faults, Fault{Kind: "snap-write-byte", N: fr.Intn(1500)})
+				}
+				if sr := NewRng(seed, uint64(run), 104); sr.Chance(0.2) {
+					// the destination takes part of a write and reports the short count without an
+					// error (own stream): the snapshot is torn all the same and must be reported
+					cs.Faults = []Fault{{Kind: "snap-write-short", N: sr.Intn(1500)}}
 				}
 				for i := range cs.Threads {
 					if cs.Threads[i].Role == "snapshot" {
